@@ -1,9 +1,15 @@
 /-
 C04 — measurements are normalised to base units for every value, original kept.
 Property theorems only (helper lemmas: Proofs/Lemmas/C04*.lean).
+
+Model: Model/Unit/Tidy.lean (benchunit/tidy.go, the reader's rule, unit metadata, `.unit` filter),
+tokenizer Model/Unit/Parse.lean. Specification: Model/Spec/Tidy.lean.
 -/
 import Model.Unit.Tidy
 import Model.Spec.Tidy
+import Proofs.Lemmas.C04Tok
+import Proofs.Lemmas.C04Sub
+import Proofs.Lemmas.C04Idem
 
 namespace C04
 open Unit.Tidy
@@ -13,5 +19,192 @@ what the general path (`tidyUnitUncached`) computes for that unit, bit for bit (
 constant `1e-9` equals `1/1e9` in float64). Kernel evaluation of the table. -/
 theorem tidy_fastpaths_agree :
     fastTable.all (fun e => tidyUnitUncached? e.1 == some e.2) = true := by decide +kernel
+
+/-- **tidy_uncached_spec** — the general path, for ALL byte strings (valid UTF-8 or not): the edit
+list built from the tokenizer's byte positions and applied last-to-first never slices out of
+bounds (`some`: no run-time panic, edits do not overlap, positions stay valid while the string
+changes length) and yields exactly the specification's unit and factor. -/
+theorem tidy_uncached_spec (u : Bytes) : tidyUnitUncached? u = some (Spec.Tidy.tidyUnit u) := by
+  unfold tidyUnitUncached?
+  rw [scan_eq]
+  have h := tokens_main (u.length + 1) u 0 false [] F64.one (Nat.lt_succ_self _) rfl
+  simp only [List.nil_append] at h ⊢
+  unfold Unit.Parse.tokens
+  rw [h.1, h.2]
+  rfl
+
+theorem fastPath_mem (u : Bytes) (r : Bytes × F64.Bits) (h : fastPath u = some r) :
+    (u, r) ∈ fastTable := by
+  unfold fastPath at h
+  cases hf : fastTable.find? (·.1 == u) with
+  | none => simp [hf] at h
+  | some e =>
+    simp only [hf, Option.map_some, Option.some.injEq] at h
+    have hm := List.mem_of_find?_eq_some hf
+    have hp := List.find?_some hf
+    have : e.1 = u := by simpa using hp
+    rw [← this, ← h]; exact hm
+
+theorem fastTable_spec : fastTable.all (fun e => Spec.Tidy.tidyUnit e.1 == e.2) = true := by
+  decide +kernel
+
+/-- **tidy_spec** — `tidyUnit` (fast-path switch, substring pre-filter, memoised general path)
+equals the specification for ALL byte strings: every numerator component `ns` becomes `sec`,
+every numerator component `MB` becomes `B`, everything else is kept byte for byte, and the factor
+is `/1e9` resp. `*1e6` per replaced component, left to right. -/
+theorem tidy_spec (u : Bytes) : tidyUnit u = Spec.Tidy.tidyUnit u := by
+  unfold tidyUnit
+  cases hf : fastPath u with
+  | some r =>
+    have hm := fastPath_mem u r hf
+    have := List.all_eq_true.mp fastTable_spec _ hm
+    simp only [beq_iff_eq] at this
+    simp [this]
+  | none =>
+    simp only
+    by_cases hc : mayNeedTidy u = true
+    · simp only [hc, Bool.not_true, Bool.false_eq_true, if_false]
+      unfold tidyUnitUncached
+      rw [tidy_uncached_spec]; rfl
+    · have hc' : mayNeedTidy u = false := by simpa using hc
+      simp only [hc', Bool.not_false, if_true]
+      exact (spec_noop_of_not_contains u hc').symm
+
+/-- the measurement-level statement: `benchunit.Tidy` is the specification's `tidy` -/
+theorem tidy_value_spec (v : F64.Bits) (u : Bytes) : tidy v u = Spec.Tidy.tidy v u := by
+  unfold tidy Spec.Tidy.tidy
+  rw [tidy_spec]
+
+/-- **no_ns_MB_substring** — a unit that contains neither `ns` nor `MB` as a substring is left
+alone with factor exactly 1 (the pre-filter is sound). -/
+theorem no_ns_MB_substring (u : Bytes) (h : mayNeedTidy u = false) : tidyUnit u = (u, F64.one) := by
+  rw [tidy_spec]; exact spec_noop_of_not_contains u h
+
+example : mayNeedTidy sAllocsOp = false ∧ mayNeedTidy [66, 47, 115, 101, 99] = false := by
+  decide
+
+/-- **reader_reports_base_unit** — for every value (zero, infinities, NaN included) and every
+unit the reader reports exactly what the specification demands: the unit is the specification's
+base unit, the value is the written value times the factor, and the written pair is preserved in
+OrigValue/OrigUnit exactly when the unit changed (decided by the unit, never by the value). -/
+theorem reader_reports_base_unit (v : F64.Bits) (u : Bytes) :
+    (readerValue v u).unit = (Spec.Tidy.tidyUnit u).1 ∧
+    ((Spec.Tidy.tidyUnit u).1 ≠ u →
+      (readerValue v u).value = F64.mul v (Spec.Tidy.tidyUnit u).2 ∧
+      (readerValue v u).origValue = v ∧ (readerValue v u).origUnit = u) ∧
+    ((Spec.Tidy.tidyUnit u).1 = u →
+      (readerValue v u).value = v ∧ (readerValue v u).origUnit = []) := by
+  unfold readerValue
+  rw [tidy_value_spec]
+  unfold Spec.Tidy.tidy
+  simp only
+  by_cases h : (Spec.Tidy.tidyUnit u).1 = u
+  · simp [h]
+  · simp [h]
+
+/-- the same as one equation: the reader's record is the specification's report -/
+theorem reader_is_report (v : F64.Bits) (u : Bytes) :
+    ((readerValue v u).value, (readerValue v u).unit, (readerValue v u).origValue, (readerValue v u).origUnit)
+      = Spec.Tidy.report v u := by
+  unfold readerValue Spec.Tidy.report
+  rw [tidy_value_spec]
+  by_cases h : (Spec.Tidy.tidy v u).2 = u
+  · simp [h]
+  · simp [h]
+
+/-- one written unit is never reported under two names: the reported unit does not depend on the
+value -/
+theorem reported_unit_value_independent (v w : F64.Bits) (u : Bytes) :
+    (readerValue v u).unit = (readerValue w u).unit := by
+  rw [(reader_reports_base_unit v u).1, (reader_reports_base_unit w u).1]
+
+/-- **unit_filter_matches_either** — a `.unit` term selects a measurement exactly when the
+pattern matches the written unit or the base unit. -/
+theorem unit_filter_matches_either (q : Bytes → Bool) (v : F64.Bits) (u : Bytes) :
+    unitMatch q (readerValue v u) = (q (tidyUnit u).1 || q u) := by
+  unfold unitMatch readerValue tidy
+  simp only
+  by_cases h : (tidyUnit u).1 = u
+  · simp [h]
+  · have hu : u ≠ [] := by
+      intro e; subst e; exact h (by decide)
+    have hu' : (u != []) = true := by simpa using hu
+    simp [h, hu']
+
+/-- **tidy_idempotent_unit** — for ALL byte strings: the unit produced by `tidyUnit` is a fixed
+point with factor exactly 1 (re-parsing the rewritten string finds the rewritten components:
+replacements are ASCII, decoding is local, separators are untouched). -/
+theorem tidy_idempotent_unit (u : Bytes) : tidyUnit (tidyUnit u).1 = ((tidyUnit u).1, F64.one) := by
+  rw [tidy_spec u, tidy_spec]; exact spec_tidyUnit_idem u
+
+/-- **reported_unit_is_base** — whatever the reader reports is expressed in a base unit: no
+numerator component `ns` or `MB` is left (for every unit, every value). -/
+theorem reported_unit_is_base (v : F64.Bits) (u : Bytes) :
+    Spec.Tidy.isBase (readerValue v u).unit = true := by
+  rw [(reader_reports_base_unit v u).1]; exact spec_tidyUnit_isBase u
+
+/-- **passes_through_untouched** — a unit with nothing to normalise (no numerator component `ns`
+or `MB`; `ns`/`MB` in the denominator or inside longer words do not count) is reported as written,
+value untouched bit for bit (no multiplication by 1 even), OrigUnit = "" and OrigValue = 0. -/
+theorem passes_through_untouched (v : F64.Bits) (u : Bytes) (h : Spec.Tidy.isBase u = true) :
+    readerValue v u = { value := v, unit := u, origValue := 0, origUnit := [] } := by
+  unfold readerValue
+  rw [tidy_value_spec]
+  unfold Spec.Tidy.tidy
+  rw [spec_tidyUnit_of_isBase u h]
+  simp
+
+-- non-trivial instances: `op/ns`, `nsec*MBs` have nothing to normalise
+example : Spec.Tidy.isBase [111, 112, 47, 110, 115] = true ∧
+    Spec.Tidy.isBase [110, 115, 101, 99, 42, 77, 66, 115] = true := by decide
+
+/-- **metadata_lookup_tidy_invariant** — a metadata lookup gives the same answer whether the
+written or the base unit is named, for every map; and a field recorded from a `Unit` line naming
+either form is found under both names. -/
+theorem metadata_lookup_tidy_invariant (m : MetaMap) (u k : Bytes) :
+    get m u k = get m (tidyUnit u).1 k ∧ getAssumption m u = getAssumption m (tidyUnit u).1 := by
+  have h : (tidy F64.one (tidyUnit u).1).2 = (tidy F64.one u).2 := by
+    unfold tidy; simp only; rw [tidy_idempotent_unit]
+  constructor
+  · unfold Unit.Tidy.get; rw [h]
+  · unfold getAssumption Unit.Tidy.get; rw [h]
+
+/-- `GetBetter` agrees for the written and the base unit whenever a `better` entry exists for the
+unit (the built-in defaults are keyed by the literal name, see the remark below). -/
+theorem getBetter_tidy_invariant (m : MetaMap) (u : Bytes) (h : (get m u sBetter).isSome = true) :
+    getBetter m u = getBetter m (tidyUnit u).1 := by
+  have hg := (metadata_lookup_tidy_invariant m u sBetter).1
+  unfold getBetter
+  rw [← hg]
+  cases hx : get m u sBetter with
+  | none => rw [hx] at h; cases h
+  | some b => rfl
+
+/-- remark (not a property violation, recorded in notes/C04.md): the built-in *defaults* of
+`GetBetter` are keyed by literal unit names, so `MB/op` (base unit `B/op`) has no default while
+`B/op` has. -/
+theorem getBetter_default_literal :
+    getBetter [] [77, 66, 47, 111, 112] = 0 ∧ getBetter [] (tidyUnit [77, 66, 47, 111, 112]).1 = -1 := by
+  decide +kernel
+
+/-- a field recorded from `Unit <w> k=v` (no earlier entry) is found when looking up `w` or the
+base unit of `w`, and likewise when the line named the base unit and the lookup names `w`. -/
+theorem metadata_recorded_found (m : MetaMap) (w k v : Bytes) (hnew : get m w k = none) :
+    (get (addMeta m w k v).1 w k).map (·.value) = some v ∧
+    (get (addMeta m w k v).1 (tidyUnit w).1 k).map (·.value) = some v ∧
+    (get (addMeta m (tidyUnit w).1 k v).1 w k).map (·.value) = some v := by
+  have hidem : (tidy F64.one (tidyUnit w).1).2 = (tidy F64.one w).2 := by
+    unfold tidy; simp only; rw [tidy_idempotent_unit]
+  have key : ∀ (m : MetaMap) (tu ou : Bytes), MetaMap.find m tu k = none →
+      (MetaMap.find (m ++ [⟨tu, k, ou, v⟩]) tu k).map (·.value) = some v := by
+    intro m tu ou hn
+    unfold MetaMap.find at hn ⊢
+    rw [List.find?_append, hn]
+    simp
+  unfold Unit.Tidy.get at hnew
+  refine ⟨?_, ?_, ?_⟩
+  · unfold addMeta Unit.Tidy.get; simp only [hnew]; exact key _ _ _ hnew
+  · unfold addMeta Unit.Tidy.get; rw [hidem]; simp only [hnew]; exact key _ _ _ hnew
+  · unfold addMeta Unit.Tidy.get; rw [hidem]; simp only [hnew]; exact key _ _ _ hnew
 
 end C04
